@@ -71,10 +71,10 @@ Definition den (g : gf) (x : cm) (args : value) : res (Z * value) :=
 Definition total_on (P : path -> bool) (l : list (path * Z)) : Z :=
   total (filter (fun q => P (fst q)) l).
 
-(** Is path [p] bound (to a leaf or a whole sub-map) in the constraint map [c]? *)
+(** Is path [p] bound to a leaf value in the constraint map [c]? *)
 Fixpoint cm_binds (c : cm) (p : path) : bool :=
   match p with
-  | [] => true
+  | [] => match c with CLeaf _ => true | CNode _ => false end
   | a :: p' => match cm_get a c with Some c' => cm_binds c' p' | None => false end
   end.
 
